@@ -83,7 +83,8 @@ fn parse_struct(info: &StructInfo, all: &[StructInfo]) -> StructD {
             let fhas = |k: &str| fa.iter().any(|(a, _)| a == k);
             let (lty, opt): (&'static str, bool) = match ty.as_str() {
                 "i32" => ("int", false),
-                "String" => ("text", false),
+                "String" | "&'astr" => ("text", false),
+                "Option<&'astr>" => ("text", true),
                 "Option<i32>" => ("int", true),
                 "Option<String>" => ("text", true),
                 "Vec<i32>" => ("list", false),
@@ -94,6 +95,8 @@ fn parse_struct(info: &StructInfo, all: &[StructInfo]) -> StructD {
                 _ => ("-", false),
             };
             let flatten = if fhas("flatten") {
+                // `inner: &'a T` flattens `T` through the forwarding impls for `&T`
+                let ty = ty.strip_prefix("&'a").unwrap_or(ty);
                 let inner = all.iter().find(|s| s.name == ty).expect("flattened type must be in the table");
                 Some(Box::new(parse_struct(inner, all)))
             } else {
@@ -114,7 +117,12 @@ fn parse_struct(info: &StructInfo, all: &[StructInfo]) -> StructD {
         .collect();
     StructD {
         name: info.name.to_owned(),
-        kind: if info.kind == "svalue" { "value".to_owned() } else { info.kind.to_owned() },
+        kind: match info.kind {
+            "svalue" | "bvalue" => "value".to_owned(),
+            "brow" => "row".to_owned(),
+            "bsrow" => "srow".to_owned(),
+            k => k.to_owned(),
+        },
         by_name: flavor == "match_by_name",
         snc: has("skip_name_checks"),
         forbid: has("forbid_excess_udt_fields"),
@@ -1132,8 +1140,10 @@ pub fn run(case: &str, ctx: &mut Ctx) -> String {
             return "bad-case".to_owned();
         }
         let got = f(&vals);
-        // `is_empty()` is consulted by the session to decide whether values are sent at all: it must be true exactly
-        // when the struct has no unskipped field
+        // `is_empty()` is consulted by the session to decide whether values are sent at all. The generated body counts
+        // the struct's own TOP-LEVEL unskipped fields: a `#[scylla(flatten)]` field counts as one even when the
+        // flattened struct itself has no (unskipped) field, so S05 `{a, e: IE}` and a struct whose only field is a
+        // flattened empty struct are both non-empty. What the session then DOES with the answer is not driven here.
         let expected = d.fields.iter().all(|f| f.skip);
         if got != expected {
             ctx.fail(format!("is_empty() = {} for a struct with {} unskipped field(s)", got, d.fields.iter().filter(|f| !f.skip).count()));
